@@ -36,3 +36,4 @@ pub mod reflex;
 pub mod syngen;
 pub mod synterm;
 pub mod treegen;
+pub mod typedit;
